@@ -44,6 +44,7 @@ IN_RE = r'^\{"op": "Derived", "c": "a", "q": \[\["where", \["un", "in", \[120\]'
 
 
 # a query whose whole criteria is one comparison / test on x, with a skip (any sort, any limit)
+SINGLE_SORT_RE = r'^\{"op": "Derived", "c": "a", "q": \[\["where", \[("un"|"sugar"), "[a-z]+", \[120\], .*\["sort", \[\[\[120\], -?1\]\]\]'
 SINGLE_SKIP_RE = r'^\{"op": "Derived", "c": "a", "q": \[\["where", \[("un"|"sugar"), "[a-z]+", \[120\], .*\["skip", 1\]'
 
 
@@ -147,6 +148,9 @@ PLANS["C01"] = {
         EDG("edges", ["InvC01"], ops=["Derived"]),
         # every conjunction / disjunction of two bounds on the indexed field, in both orders, on content-rich states
         EDG("edges-bounds", ["InvC01"], ops=["Derived"], rich_states=40, states=(3, 30), reads=(0, 0),
+            event_re=BOUNDS_RE),
+        # ... and on the states where x is absent from one document and nil in another, under an index on x
+        EDG("edges-bounds-nil", ["InvC01"], ops=["Derived"], state_pred="nil_corner", states=(2, 0), reads=(0, 0), seed_off=21,
             event_re=BOUNDS_RE),
     ],
 }
@@ -257,6 +261,11 @@ PLANS["C02"] = {
         AUX("plan-model", "plan", (300, 3000), chunk=150, invariants=["InvPlanModel"], advisory=True, seed_off=9),
         EDG("edges-bounds", ["InvC02"], ops=["Derived"], rich_states=40, states=(3, 30), reads=(0, 0), seed_off=5,
             event_re=BOUNDS_RE),
+        EDG("edges-bounds-nil", ["InvC02"], ops=["Derived"], state_pred="nil_corner", states=(2, 0), reads=(0, 0), seed_off=23,
+            event_re=BOUNDS_RE),
+        # every single-leaf criterion on x with a sort on x, either direction, every window
+        EDG("edges-single-sorted", ["InvC02"], ops=["Derived"], rich_states=150, states=(5, 60), reads=(0, 0), seed_off=25,
+            event_re=SINGLE_SORT_RE),
     ],
 }
 
